@@ -164,6 +164,165 @@ fn enum_lengths(seqlen: usize) -> Vec<usize> {
 }
 
 impl C07 {
+    /// A connection request whose private token is sealed correctly (an unsecure server's key is public: all zero) but whose
+    /// plaintext is hostile: address counts and type tags, timeouts, ids at their extremes. Only the no-unwind clause applies - the
+    /// datagram is authentic by construction - and the session it may open is driven through updates of every length.
+    fn sealed_token_case(&self, ctx: &mut Ctx) -> Outcome {
+        use chacha20poly1305::{AeadInPlace, Key, KeyInit, XChaCha20Poly1305, XNonce};
+        let secure = ctx.src.chance(70);
+        let now0 = Duration::from_secs(ctx.src.pick(&[1000u64, 0, 1 << 33]));
+        let max_clients = 1 + ctx.src.below(3);
+        let mut srv = mk_server(0, 1, PROTO, max_clients, now0, secure);
+        let skey = if secure { key(1) } else { [0u8; 32] };
+        let client_id = ctx.src.pick(&[77u64, 0, u64::MAX, 1 << 63]);
+        let timeout = ctx.src.pick(&[5i32, 0, -1, i32::MIN, i32::MAX, 1]);
+        let mut pt: Vec<u8> = vec![];
+        pt.extend_from_slice(&client_id.to_le_bytes());
+        pt.extend_from_slice(&timeout.to_le_bytes());
+        fn entry(pt: &mut Vec<u8>, a: SocketAddr) {
+            match a {
+                SocketAddr::V4(a) => {
+                    pt.push(1);
+                    pt.extend_from_slice(&a.ip().octets());
+                }
+                SocketAddr::V6(a) => {
+                    pt.push(2);
+                    pt.extend_from_slice(&a.ip().octets());
+                }
+            }
+            pt.extend_from_slice(&a.port().to_le_bytes());
+        }
+        let shape = ctx.src.below(7);
+        let mut what = format!("secure={secure} id={client_id} timeout={timeout} ");
+        match shape {
+            0 => {
+                pt.extend_from_slice(&1u32.to_le_bytes());
+                entry(&mut pt, server_addr(0));
+                what += "one address";
+            }
+            1 => {
+                // more well-formed entries than a token holds, the server's own address first, last or nowhere
+                let k = ctx.src.pick(&[33u32, 32, 34, 64, 2, 100]);
+                let own_at = ctx.src.pick(&[0u32, k - 1, 31, u32::MAX]);
+                pt.extend_from_slice(&k.to_le_bytes());
+                for j in 0..k {
+                    if j == own_at {
+                        entry(&mut pt, server_addr(0));
+                    } else if j % 3 == 1 {
+                        entry(&mut pt, server_alt_addr(1 + j as usize));
+                    } else {
+                        entry(&mut pt, server_addr(1 + j as usize));
+                    }
+                }
+                what += &format!("{k} entries, own address at {own_at}");
+            }
+            2 => {
+                let c = ctx.src.pick(&[0u32, 33, 255, u32::MAX, 2]);
+                pt.extend_from_slice(&c.to_le_bytes());
+                entry(&mut pt, server_addr(0));
+                what += &format!("count {c} over one entry");
+            }
+            3 => {
+                let t = ctx.src.pick(&[3u8, 255, 0, 2]);
+                pt.extend_from_slice(&1u32.to_le_bytes());
+                entry(&mut pt, server_addr(0));
+                let at = pt.len() - 7;
+                pt[at] = t;
+                what += &format!("type tag {t}");
+            }
+            4 => {
+                // NONE entries in front of, between and instead of the addresses
+                let nones = ctx.src.pick(&[1u32, 31, 32, 40]);
+                let with_addr = !ctx.src.chance(60);
+                pt.extend_from_slice(&(nones + with_addr as u32).to_le_bytes());
+                for _ in 0..nones {
+                    pt.push(0);
+                }
+                if with_addr {
+                    entry(&mut pt, server_addr(0));
+                }
+                what += &format!("{nones} NONE entries, address after them: {with_addr}");
+            }
+            5 => {
+                let n = ctx.src.below(990);
+                pt.extend_from_slice(&ctx.src.bytes(n));
+                what += &format!("{n} random bytes");
+            }
+            _ => {
+                pt.extend_from_slice(&2u32.to_le_bytes());
+                entry(&mut pt, server_alt_addr(0));
+                entry(&mut pt, server_addr(0));
+                what += "both public addresses";
+            }
+        }
+        let c2s = key(21);
+        let s2c = key(22);
+        pt.extend_from_slice(&c2s);
+        pt.extend_from_slice(&s2c);
+        pt.extend_from_slice(&user_data(3));
+        pt.resize(1008, 0);
+        let now_s = now0.as_secs();
+        let expire = ctx.src.pick(&[now_s + 30, now_s, now_s + 1, u64::MAX, now_s.saturating_sub(1)]);
+        let mut xn = [0u8; 24];
+        xn.copy_from_slice(&ctx.src.bytes(24));
+        let mut aad = [0u8; 29];
+        aad[..13].copy_from_slice(b"NETCODE 1.02\0");
+        aad[13..21].copy_from_slice(&PROTO.to_le_bytes());
+        aad[21..29].copy_from_slice(&expire.to_le_bytes());
+        let cipher = XChaCha20Poly1305::new(Key::from_slice(&skey));
+        let Ok(tag) = cipher.encrypt_in_place_detached(XNonce::from_slice(&xn), &aad, &mut pt) else {
+            return Err(Fail::new("harness_seal", "sealing failed").sig("harness_io"));
+        };
+        let mut dg = vec![0u8];
+        dg.extend_from_slice(b"NETCODE 1.02\0");
+        dg.extend_from_slice(&PROTO.to_le_bytes());
+        dg.extend_from_slice(&expire.to_le_bytes());
+        dg.extend_from_slice(&xn);
+        dg.extend_from_slice(&pt);
+        dg.extend_from_slice(&tag);
+        what += &format!(" expire={}", expire as i128 - now_s as i128);
+        ctx.op(&what);
+        ctx.label("sealed_token_case");
+        let from = client_addr(0);
+        let mut seq = 0u64;
+        let mut connected = false;
+        let reply = own(srv.server.process_packet(from, &mut dg.clone()));
+        if let OwnedResult::Send { bytes, .. } = &reply {
+            ctx.label("sealed_token_answered");
+            ctx.nontrivial = true;
+            if let Some((ts, td)) = peek_challenge(bytes, PROTO, &s2c) {
+                let mut resp = seal(&renetcode::verif::Packet::Response { token_sequence: ts, token_data: td }, PROTO, seq, &c2s);
+                seq += 1;
+                if let OwnedResult::Connected { client_id: got, .. } = own(srv.server.process_packet(from, &mut resp)) {
+                    ctx.label("sealed_token_connected");
+                    connected = true;
+                    if got != client_id {
+                        return Err(Fail::new("sealed_token_identity", format!("token seals client id {client_id}, ClientConnected reports {got}")));
+                    }
+                }
+            }
+        }
+        // the session (or the half-open attempt) lives through updates of every length; the request is repeated in between
+        for round in 0..6 {
+            let dt = Duration::from_millis(ctx.src.pick(&[100u64, 0, 1000, 6000, 40_000, 1 << 32]));
+            srv.server.update(dt);
+            for id in srv.server.clients_id() {
+                let _ = own(srv.server.update_client(id));
+                let _ = srv.server.generate_payload_packet(id, &[round as u8; 9]).map(|(_, b)| b.len());
+            }
+            if ctx.src.chance(90) {
+                let _ = own(srv.server.process_packet(from, &mut dg.clone()));
+            }
+            if connected && ctx.src.chance(128) {
+                let mut ka = seal(&renetcode::verif::Packet::Payload(&[1, 2, 3]), PROTO, seq, &c2s);
+                seq += 1;
+                let _ = own(srv.server.process_packet(from, &mut ka));
+            }
+            let _ = (srv.server.connected_clients(), srv.server.max_clients(), srv.server.client_addr(client_id), srv.server.user_data(client_id).map(|u| u[0]));
+        }
+        Ok(())
+    }
+
     fn token_case(&self, ctx: &mut Ctx) -> Outcome {
         let src = &mut ctx.src;
         renetcode::verif::set_rng_seed(Some(src.u32() as u64 + 1));
@@ -467,7 +626,7 @@ impl Property for C07 {
         "exploration"
     }
     fn rule(&self) -> String {
-        "Floods (enumerated): every target endpoint is handed all 256 prefix bytes twice in a row at each length class, 512 hostile datagrams with nothing genuine in between, under the same per-datagram oracles, then genuine traffic must still work. A case stages a secure server holding every protocol state at once (unknown address, pending address, connected victim, connected bystander; clients requesting, responding, connected, disconnected) and presents non-authentic datagrams to the server from every source-address class and to every client: mutations (bit flips in prefix / sequence / body / tag, truncations, extensions, prefix replacement) of genuine datagrams of any session and direction, genuine datagrams replayed or presented at the wrong endpoint, well-formed prefixes with boundary lengths and all-zero / all-ff sequence bytes, random bytes 0..1400; silence is interleaved so a refreshed timer shows. Enumerated: all 256 prefix bytes x 13 boundary lengths x 2 fills x 7 targets; every single-bit flip and every truncation of eight fresh genuine datagrams (payload, keep-alive, response, challenge, request; both directions) presented to the live endpoint they were meant for. Tokens: raw bytes and field-wise mutations of valid serialisations (address count 0/33/2^32-1, 32..300 well-formed entries with and without NONE entries, type tags 0/1/2/3/255, expire < create, zero/negative timeouts, truncations) through ConnectToken::read -> NetcodeClient::new -> update / process_packet / generate_payload_packet / disconnect. Oracles: no call unwinds (overflow checks on); a non-authentic datagram (by provenance) yields neither Payload nor ClientConnected nor ClientDisconnected, client process_packet returns None, and the snapshot of clients_id / connected_clients / per-client addr, user data, connectedness and time_since_last_received_packet (server) and connected / connecting / reason / time_since_last_received_packet / server_addr (every client) is unchanged; afterwards a genuine payload still surfaces in both directions and the pending client completes its handshake. Non-trivial: a datagram of >= 18 bytes presented from a known address or to a client past the request state (reaches the keyed decode path), or a mutated token that parses. Distinct = hash of the decoded case.".into()
+        "Floods (enumerated): every target endpoint is handed all 256 prefix bytes twice in a row at each length class, 512 hostile datagrams with nothing genuine in between, under the same per-datagram oracles, then genuine traffic must still work. A case stages a secure server holding every protocol state at once (unknown address, pending address, connected victim, connected bystander; clients requesting, responding, connected, disconnected) and presents non-authentic datagrams to the server from every source-address class and to every client: mutations (bit flips in prefix / sequence / body / tag, truncations, extensions, prefix replacement) of genuine datagrams of any session and direction, genuine datagrams replayed or presented at the wrong endpoint, well-formed prefixes with boundary lengths and all-zero / all-ff sequence bytes, random bytes 0..1400; silence is interleaved so a refreshed timer shows. Enumerated: all 256 prefix bytes x 13 boundary lengths x 2 fills x 7 targets; every single-bit flip and every truncation of eight fresh genuine datagrams (payload, keep-alive, response, challenge, request; both directions) presented to the live endpoint they were meant for. Tokens: raw bytes and field-wise mutations of valid serialisations (address count 0/33/2^32-1, 32..300 well-formed entries with and without NONE entries, type tags 0/1/2/3/255, expire < create, zero/negative timeouts, truncations) through ConnectToken::read -> NetcodeClient::new -> update / process_packet / generate_payload_packet / disconnect. Sealed hostile tokens: connection requests whose private token is sealed correctly - an unsecure server's key is public, a secure server's backend may err - around a hostile plaintext (0..100 well-formed address entries with the server's own address first, last, at slot 31 or nowhere, lying counts, unknown type tags, up to 40 NONE entries, random bytes; timeouts 0, negative, i32 extremes; ids 0, 2^63, 2^64-1; expiry at, around and far beyond the server second, clocks 0 and 2^33 s), answered as the client would (response sealed with the key the plaintext names) and the resulting session driven through updates of 0 ms .. 2^32 ms, repeated requests, payloads, keep-alives and accessors - no-unwind clause only. Oracles: no call unwinds (overflow checks on); a non-authentic datagram (by provenance) yields neither Payload nor ClientConnected nor ClientDisconnected, client process_packet returns None, and the snapshot of clients_id / connected_clients / per-client addr, user data, connectedness and time_since_last_received_packet (server) and connected / connecting / reason / time_since_last_received_packet / server_addr (every client) is unchanged; afterwards a genuine payload still surfaces in both directions and the pending client completes its handshake. Non-trivial: a datagram of >= 18 bytes presented from a known address or to a client past the request state (reaches the keyed decode path), or a mutated token that parses. Distinct = hash of the decoded case.".into()
     }
     fn assumptions(&self) -> Vec<String> {
         vec![
@@ -479,7 +638,7 @@ impl Property for C07 {
         PbtCfg { cases: tier.pick(150_000, 3_000_000), max_len: tier.pick(600, 1800), shrink_ms: 120_000 }
     }
     fn required_labels(&self) -> Vec<&'static str> {
-        vec!["keyed_path", "at_unknown", "at_pending", "at_connected", "at_client", "token_case", "token_parsed", "token_many_entries", "flood"]
+        vec!["keyed_path", "at_unknown", "at_pending", "at_connected", "at_client", "token_case", "token_parsed", "token_many_entries", "sealed_token_case", "sealed_token_answered", "sealed_token_connected", "flood"]
     }
     fn enums(&self, _tier: Tier) -> Vec<(&'static str, u64)> {
         // genuine_tamper: 8 sample datagrams x (every bit of the first 360 bytes + every truncation up to 360)
@@ -539,6 +698,8 @@ impl Property for C07 {
     fn run_choices(&self, ctx: &mut Ctx) -> Outcome {
         if ctx.src.chance(50) {
             self.token_case(ctx)
+        } else if ctx.src.chance(40) {
+            self.sealed_token_case(ctx)
         } else {
             self.datagram_case(ctx)
         }
